@@ -322,7 +322,7 @@ Proof.
   - injection Hl as <-. rewrite Hroot. exact H1.
 Qed.
 
-Hypothesis Hwrap : 2 * ptotal P < two64.
+Hypothesis Hwrap : ptotal P < two64.
 Hypothesis Hbyz : 3 * byz_power P cids < ptotal P.
 
 Record Inv (n : net) : Prop := {
